@@ -1058,6 +1058,15 @@ func drbgStream(c *mon.Case, st *stats, seed *drbg.Seed, nBlocks int, rng *mrand
 	ref := siphash.NewOFB(refSeed(seed))
 	ints := make([]int64, 0, nBlocks) // the stream as Int63 values, for the replay below
 	okAll := true
+	// blocks handed out earlier are the caller's: they are kept and compared
+	// again at the end (a later draw must not change them), and some are
+	// written to (which must not change what the generator produces next)
+	type kept struct {
+		n    int
+		got  []byte
+		want [8]byte
+	}
+	var held []kept
 	for n := 1; n <= nBlocks; n++ {
 		pos := "block-1"
 		if n > 1 {
@@ -1066,6 +1075,22 @@ func drbgStream(c *mon.Case, st *stats, seed *drbg.Seed, nBlocks int, rng *mrand
 		if rng.IntN(2) == 0 {
 			got := d.NextBlock()
 			want := ref.NextBlock()
+			if len(held) < 64 {
+				if rng.IntN(4) == 0 && len(got) == 8 && [8]byte(got) == want {
+					for i := range got { // the caller uses its block as scratch space
+						got[i] ^= 0xa5
+						want[i] ^= 0xa5
+					}
+					st.add("drbg_blocks_overwritten_by_the_caller", 1)
+					held = append(held, kept{n, got, want})
+					for i := range want {
+						want[i] ^= 0xa5
+					}
+					got = append([]byte(nil), want[:]...)
+				} else {
+					held = append(held, kept{n, got, want})
+				}
+			}
 			ints = append(ints, int64(binary.BigEndian.Uint64(want[:])&^(1<<63)))
 			if len(got) != 8 || [8]byte(got) != want {
 				c.Violation("drbg-nextblock-mismatch/"+pos, fmt.Sprintf("seed %s (%s): block %d = %x, SipHash-2-4 OFB reference %x", seed.Hex(), label, n, got, want),
@@ -1095,6 +1120,14 @@ func drbgStream(c *mon.Case, st *stats, seed *drbg.Seed, nBlocks int, rng *mrand
 	}
 	if !okAll {
 		return
+	}
+	for _, k := range held {
+		if len(k.got) != 8 || [8]byte(k.got) != k.want {
+			c.Violation("drbg-block-changed-after-it-was-handed-out", fmt.Sprintf("seed %s (%s): block %d read %x when it was handed out (or was set to that by the caller) and reads %x after %d further draws", seed.Hex(), label, k.n, k.want, k.got, nBlocks-k.n),
+				map[string]any{"seed": seed.Hex(), "block": k.n})
+			return
+		}
+		st.add("drbg_blocks_held_and_compared_again", 1)
 	}
 	st.add("control_drbg_matches_reference", 1)
 	// determinism: a second generator from the same seed, read differently
